@@ -93,6 +93,12 @@ def gen_program(rnd, prof):
             if rnd.random() < 0.15:
                 p.dofiles[n + '.do'] = 0
     p.order = names
+    # failing scripts that leave a mess: before it exits non-zero the script appends to the existing target file ($1) directly
+    import random as _random
+    r2 = _random.Random(rnd.random())
+    for n in names:
+        if not p.targets[n].get('phony') and r2.random() < prof.get('p_scribble', 0.4):
+            p.targets[n]['scribble'] = True
     return p
 
 
